@@ -370,7 +370,10 @@ class Run:
 		except Crashed as c:
 			self.log.append([line, [list(e) for e in c.events], "died"])
 			self.crashed(c)
-		self.log.append([line, [list(e) for e in evs]] + ([evs.err] if not evs.ok else []))
+		self.log.append([line, [list(e) for e in evs]])
+		if not evs.ok:
+			# the engine only sends what the driver accepts: anything else is a harness defect
+			raise RuntimeError("trxcon driver refused %r: %s" % (line[:100], evs.err))
 		self.scan(evs)
 		return evs
 
@@ -438,8 +441,6 @@ class Run:
 		c = self.cfg
 		evs = self.req("open %s %s %d %d %d" % (c.get("lhost", "127.0.0.1"), c.get("rhost", "127.0.0.1"),
 			c.get("base_port", 6700), c.get("fn_advance", 3), c.get("instance", 0)))
-		if not evs.ok:
-			raise RuntimeError("driver refused open: %s" % evs.err)
 		self.alive = True
 		lv = c.get("loglevel")
 		if lv:
